@@ -140,11 +140,52 @@ int cpputest_malloc_get_count()
 
 static TestMemoryAllocator* originalAllocator = NULLPTR;
 
+/* While out of memory is simulated the current malloc allocator hands out nothing. It still is the allocator of the
+ * malloc family, though: blocks that were allocated before the simulation started are released through it, so it
+ * carries the names of the allocator it stands in for and gives memory back to it. */
+class OutOfMemoryMallocAllocator : public TestMemoryAllocator
+{
+public:
+    OutOfMemoryMallocAllocator() : TestMemoryAllocator("Out of memory", "malloc", "free") {}
+
+    virtual char* alloc_memory(size_t, const char*, size_t) CPPUTEST_OVERRIDE
+    {
+        return NULLPTR;
+    }
+
+    virtual void free_memory(char* memory, size_t size, const char* file, size_t line) CPPUTEST_OVERRIDE
+    {
+        if (originalAllocator) originalAllocator->free_memory(memory, size, file, line);
+    }
+
+    virtual void freeMemoryLeakNode(char* memory) CPPUTEST_OVERRIDE
+    {
+        if (originalAllocator) originalAllocator->freeMemoryLeakNode(memory);
+    }
+
+    virtual const char* name() const CPPUTEST_OVERRIDE
+    {
+        return originalAllocator ? originalAllocator->name() : TestMemoryAllocator::name();
+    }
+
+    virtual const char* alloc_name() const CPPUTEST_OVERRIDE
+    {
+        return originalAllocator ? originalAllocator->alloc_name() : TestMemoryAllocator::alloc_name();
+    }
+
+    virtual const char* free_name() const CPPUTEST_OVERRIDE
+    {
+        return originalAllocator ? originalAllocator->free_name() : TestMemoryAllocator::free_name();
+    }
+};
+
+static OutOfMemoryMallocAllocator outOfMemoryMallocAllocator;
+
 void cpputest_malloc_set_out_of_memory()
 {
     if (originalAllocator == NULLPTR)
         originalAllocator = getCurrentMallocAllocator();
-    setCurrentMallocAllocator(NullUnknownAllocator::defaultAllocator());
+    setCurrentMallocAllocator(&outOfMemoryMallocAllocator);
 }
 
 void cpputest_malloc_set_not_out_of_memory()
